@@ -201,9 +201,13 @@ func c10HandlerErrors(a *An, df *DecodeFacts, idx int) {
 					ok = false
 					why = append(why, "an inotify_rm_watch failure is forwarded without excluding EINVAL (the kernel had already dropped the watch: ordinary activity)")
 				}
-			case o == "wraps:"+ro.ErrNonExist.Name() || o == "call:fmt.Errorf":
+			case o == "call:fmt.Errorf" || o == "call:errors.New":
+				kinds = append(kinds, "constructed")
+				ok = false
+				why = append(why, "a freshly constructed error (no %w) is reported from the event path: it hides its cause from errors.Is, so the filters for benign outcomes cannot apply")
+			case o == "wraps:"+ro.ErrNonExist.Name():
 				kinds = append(kinds, "removal-error")
-				if o == "wraps:"+ro.ErrNonExist.Name() && !excl(ro.ErrNonExist.Name()) {
+				if !excl(ro.ErrNonExist.Name()) {
 					ok = false
 					why = append(why, "ErrNonExistentWatch from the clean-up is forwarded (the watch was already removed: ordinary activity)")
 				}
